@@ -6,7 +6,13 @@
    call names a non-zero bundle policy / rtcp-mux policy / peer identity /
    certificate list different from the stored one, or a non-zero candidate pool
    size different from the stored one while a local description exists (zero
-   values mean "leave as is" in pion's API). *)
+   values mean "leave as is" in pion's API).
+
+   A certificate is (key type, key identity, x509 certificate identity);
+   "the certificate list is different" is structural: a different x509
+   certificate for the SAME key is a different certificate
+   (c39_certificate_identity; c39_ex_key_only_equality_would_accept shows the
+   statements fail for a comparison by key alone). *)
 From Coq Require Import List Bool String NArith ZArith.
 Import ListNotations.
 From Verif Require Import Common.Base Model.Config Proofs.Config.
@@ -35,6 +41,26 @@ Theorem c39_immutable : forall closed has_local cur new c',
   certs c' = certs cur /\ pool c' = pool cur /\ semantics c' = semantics cur.
 Proof. exact immutable_kept. Qed.
 Print Assumptions c39_immutable.
+
+(* certificate identity is the x509 certificate together with its key, not
+   the key: a call that names, at any position, a certificate other than the
+   stored one is rejected and changes nothing -- in particular (second clause)
+   another x509 certificate issued for the very same key (c_key c = c_key n is
+   allowed), and a stored list in another order or with duplicates *)
+Theorem c39_certificate_identity : forall has_local cur new i c n,
+  nth_error (certs cur) i = Some c -> nth_error (certs new) i = Some n ->
+  (c <> n -> set_configuration false has_local cur new = (cur, Err E_modification)) /\
+  (c_x509 c <> c_x509 n -> set_configuration false has_local cur new = (cur, Err E_modification)).
+Proof. exact certificate_identity. Qed.
+Print Assumptions c39_certificate_identity.
+
+(* and naming the stored certificates again (a re-import of the same key and
+   the same x509 certificate is the same triple) is not a change *)
+Theorem c39_same_certificates_accepted : forall cur new,
+  certs new = certs cur -> forallb comparable (certs cur) = true ->
+  changes_certs cur new = false.
+Proof. exact same_certificates_no_change. Qed.
+Print Assumptions c39_same_certificates_accepted.
 
 (* what a successful call does change: exactly the mutable tail *)
 Theorem c39_success_effect : forall closed has_local cur new c',
@@ -87,7 +113,8 @@ Print Assumptions c39_init_nonzero.
 
 (* non-trivial instances *)
 Definition ex_cur : config :=
-  {| servers := []; policy := 0; bundle := 2; rtcpmux := 1; identity := "alice"; certs := [0%Z];
+  {| servers := []; policy := 0; bundle := 2; rtcpmux := 1; identity := "alice";
+     certs := [{| c_ktype := KEcdsa; c_key := 0; c_x509 := 0 |}];
      pool := 1; semantics := 0; always_dc := false |}.
 Definition ex_bad_server : server :=
   {| s_id := 2; s_urls := [UTurn]; s_user := true; s_cred := CNil; s_credtype := 0 |}.
@@ -112,3 +139,34 @@ Example c39_ex_invalid_server_behind_valid_one :
   changes_immutable true ex_cur new = false /\
   set_configuration false true ex_cur new = (ex_cur, Err E_access).
 Proof. split; reflexivity. Qed.
+
+(* a renewed certificate: same ECDSA key 0, x509 certificate 4 instead of 0 *)
+Definition ex_renewed : config :=
+  with_certs ex_cur [{| c_ktype := KEcdsa; c_key := 0; c_x509 := 4 |}].
+
+Example c39_ex_same_key_other_certificate :
+  set_configuration false false ex_cur ex_renewed = (ex_cur, Err E_modification) /\
+  set_configuration false true ex_cur ex_renewed = (ex_cur, Err E_modification).
+Proof. split; reflexivity. Qed.
+
+(* Were certificates compared by key alone, the certificate block would accept
+   the renewed certificate and store it: the stored certificate list changes,
+   against c39_immutable / c39_reject_unchanged *)
+Definition key_only (c o : cert) : bool :=
+  keytype_eqb (c_ktype c) (c_ktype o) && comparable c && Z.eqb (c_key c) (c_key o).
+
+Example c39_ex_key_only_equality_would_accept :
+  sc_certs_by key_only ex_cur ex_renewed = (ex_renewed, Ok tt) /\
+  certs ex_renewed <> certs ex_cur /\
+  sc_certs ex_cur ex_renewed = (ex_cur, Err E_modification).
+Proof. repeat split; try reflexivity. discriminate. Qed.
+
+(* two-certificate list in the other order; the same certificate twice *)
+Example c39_ex_reordered_and_duplicated :
+  let a := {| c_ktype := KEcdsa; c_key := 0; c_x509 := 0 |} in
+  let b := {| c_ktype := KRsa; c_key := 3; c_x509 := 7 |} in
+  let cur := with_certs ex_cur [a; b] in
+  set_configuration false false cur (with_certs cur [b; a]) = (cur, Err E_modification) /\
+  set_configuration false false cur (with_certs cur [a; a]) = (cur, Err E_modification) /\
+  snd (set_configuration false false cur (with_certs cur [a; b])) = Ok tt.
+Proof. repeat split. Qed.
